@@ -359,6 +359,11 @@ def run_c08(chk, prog):
     import p_c12
     nb = chk.include("C08.bus", lambda c, p: p_vsign.bus_loop(c, p), prog)
     nt = chk.include("C08.total", p_c12.run_c12, prog)
+    # the product takes for granted that the configuration is one 16-byte block from which the sign derives exactly the type's
+    # dimensions (C19's tables and the sign's derivation): a leg of the composition as well
+    import p_signtype
+    ns = chk.include("C08.type", p_signtype.run_c19_tables, prog)
+    chk.floor("C08.type", "sign-type block obligations (C19)", ns, 100)
     chk.floor("C08.bus", "bus delivery obligations (C14.O4)", nb, 6)
     chk.floor("C08.total", "panic-site obligations of the sign (C12)", nt, 8)
     # log macros evaluate their arguments only when the record is enabled: the product is explored at both extremes of the level
@@ -370,7 +375,7 @@ def run_c08(chk, prog):
             p_ctrl.LOG_ON = False
     chk.note_analysed("functions", ["flipdot::sign::Sign::%s" % n for n in p_ctrl.ENTRIES] + [sm.tab.fn["name"]])
     chk.assumptions += ["the pages sent have the requested sign type's size (property precondition); the controller's and the sign's address coincide",
-                        "C09.O4 + C19.O1: the configuration is one item of one 16-byte chunk; C19.O3: the sign derives exactly dimensions() from it",
+                        "C09.O4 + C19.O1: the configuration is one item of one 16-byte chunk; C19.O3: the sign derives exactly dimensions() from it (both decided here, as C08.data / C08.type)",
                         "lemma L4 (DESIGN.md section 6) for the data plane"]
 
 
